@@ -27,13 +27,14 @@ ACTIONS = [
 
 def make_output(variant=0):
     ndim = 3
-    if variant == 0:
-        refined = [(1, (0, 0, 0)), (1, (1, 1, 1)), (1, (1, 0, 0)), (2, (0, 0, 0)), (2, (3, 3, 3))]
-        bk = [0, 700, 2900, 4096]
-    else:
-        refined = [(1, (0, 1, 0)), (1, (1, 0, 1)), (2, (1, 2, 1))]
-        bk = [0, 1500, 2000, 4096]
-    tree = M1.Tree(ndim, 3, refined)
+    import itertools
+
+    lvl1 = [(1, c) for c in itertools.product(range(2), repeat=3)]
+    lvl2 = [(2, c) for c in itertools.product(range(4), repeat=3)]
+    # levelmin = 3: the CPU pre-selection may use level-2 search cubes, so a corner box really prunes
+    refined = lvl1 + lvl2
+    bk = [0, 700, 2900, 4096] if variant == 0 else [0, 1500, 2000, 4096]
+    tree = M1.Tree(ndim, 3, refined, levelmin=3)
     owner = M1.hilbert_owner(tree, bk)
     octs = tree.all_octs()
     ghosts = {k: {o for o in octs if owner[o] != k and (o[0] + k) % 2 == 0} for k in range(3)}
@@ -60,7 +61,7 @@ def action_kwargs(name, out):
     if name == "groups_off_mesh":
         return {"select": {"mesh": False}}
     if name == "value_pred":
-        thr = 20.0 * out.unit_d
+        thr = 1300.0 * out.unit_d
         return {"select": {"mesh": {"density": lambda d: d >= thr * osyris.units("g/cm**3")}}}
     if name == "box":
         q = 0.26 * box
